@@ -57,6 +57,20 @@ def ix2s(model):
             def pred(e, t):
                 if t and isinstance(e, ast.Name) and e.id == v:
                     return True
+                if t and isinstance(e, ast.Call) and any(isinstance(a, ast.Name) and a.id == v for a in e.args):
+                    # a predicate helper whose result implies that its argument is non-empty:
+                    #    def ends_with_punct(s): return s and s[-1] in ...
+                    rc = model.resolve_call(e)
+                    if rc and rc[0] == 'func' and isinstance(rc[1].node, ast.FunctionDef):
+                        fn_ = rc[1]
+                        rets = [x for x in T.func_returns(fn_)]
+                        params = fn_.params[1:] if fn_.cls is not None and fn_.outer is None else fn_.params
+                        k = next(i for i, a in enumerate(e.args) if isinstance(a, ast.Name) and a.id == v)
+                        if len(rets) == 1 and rets[0] is not None and k < len(params):
+                            fs = []
+                            guards.split_fact(rets[0], True, fs)
+                            if any(t2 and isinstance(e2, ast.Name) and e2.id == params[k] for e2, t2 in fs):
+                                return True
                 if isinstance(e, ast.Compare) and isinstance(e.left, ast.Call) \
                         and getattr(e.left.func, 'id', '') == 'len' and unparse(e.left.args[0]) == v:
                     return True
@@ -161,6 +175,13 @@ def _stack_table(model, fn, tokname, stack_pred0, r):
                 return val_text(vals[0])
         if isinstance(e, ast.Tuple):
             return '(' + ','.join(val_text(x) for x in e.elts) + ')'
+        if isinstance(e, ast.Call) and isinstance(e.func, ast.Name) and not e.args and not e.keywords:
+            # a local closure without parameters that only returns an expression
+            for d in ast.walk(fn.node):
+                if isinstance(d, ast.FunctionDef) and d.name == e.func.id and d is not fn.node \
+                        and not d.args.args and len(d.body) == 1 and isinstance(d.body[0], ast.Return) \
+                        and d.body[0].value is not None:
+                    return val_text(d.body[0].value)
         return unparse(e)
 
     def actions(stmts, env):
